@@ -42,6 +42,9 @@ Definition ms_eqb (a b : ms_value) : bool :=
 Inductive kcase :=
 (* flow tuple: entity, the Go representations of its addresses, bytes from Go and from C *)
 | KTuple (f : flow) (gs gd : goaddr) (go_b c_b : list N)
+(* reply direction: the kernel's reversed key built into a dirty slot (prior), the Go key of the reversed tuple,
+   and the redirect_track key built into a dirty slot *)
+| KRev (f : flow) (gs gd : goaddr) (prior : list N) (go_b c_b c_rt : list N)
 (* connectivity slot: entity (outbound, domain, v6); Go network type; C packet class; observed keys *)
 | KConn (outbound : N) (d : conn_domain) (v6 : bool) (nt : go_nettype) (l4proto : N) (dport53 : bool)
         (go_k : N) (c_k : option N)
@@ -67,6 +70,15 @@ Definition check_case (k : kcase) : list N :=
       let sp := spec_tuple_key f in
       err (bytes_eqb go_b gm) 1 ++ err (obytes_eqb cm c_b) 2 ++ err (bytes_eqb gm sp && obytes_eqb cm sp) 3
       ++ err (bytes_eqb go_b sp) 4 ++ err (bytes_eqb c_b sp) 5 ++ err (bytes_eqb go_b c_b) 6
+  | KRev f gs gd prior go_b c_b c_rt =>
+      let rf := reverse_flow f in
+      let gm := go_tuples_key LE gd gs (f_sport rf) (f_dport rf) (f_proto rf) in
+      let cm := c_reversed_flow_key LE prior f in
+      let sp := spec_tuple_key rf in
+      let rt := (mapped16 (f_src f) ++ mapped16 (f_dst f))%list in
+      err (bytes_eqb go_b gm) 1 ++ err (obytes_eqb cm c_b) 2
+      ++ err (bytes_eqb gm sp && obytes_eqb cm sp && obytes_eqb (option_map c_redirect_tuple (c_flow_key LE f)) rt) 3
+      ++ err (bytes_eqb go_b sp) 4 ++ err (bytes_eqb c_b sp && bytes_eqb c_rt rt) 5 ++ err (bytes_eqb go_b c_b) 6
   | KConn o d v6 nt l4 d53 go_k c_k =>
       let gm := go_conn_key o nt in
       let cm := c_conn_key o l4 d53 (negb v6) in
@@ -120,6 +132,8 @@ Definition case_signature (k : kcase) : N * N * N * N :=
   match k with
   | KTuple f gs gd _ _ => (1, addr_class (f_src f) * 8 + addr_class (f_dst f), go_class gs * 2 + go_class gd,
                            port_class (f_sport f) * 8 + port_class (f_dport f))
+  | KRev f gs gd _ _ _ _ => (7, addr_class (f_src f) * 8 + addr_class (f_dst f), go_class gs * 2 + go_class gd,
+                             port_class (f_sport f) * 8 + port_class (f_dport f))
   | KConn o d v6 nt l4 d53 _ _ => (2, (if o =? 0 then 0 else if o =? 255 then 2 else 1), conn_domain_idx d * 2 + (if v6 then 1 else 0),
                                    (if d53 then 1 else 0) + (match nt_dom nt with UdUnset => 0 | UdDns => 2 | UdData => 4 end))
   | KLpm p g _ _ f _ _ hit => (3, addr_class (p_addr p), (if p_bits p =? 0 then 0 else if p_bits p mod 8 =? 0 then 1 else 2) * 2 + go_class g,
